@@ -6,7 +6,7 @@ BG = ('hybrid 2-d operand (buffer capacity 16) with extents 1..MAXE, all element
 def _h(name, unwind=8, quick=None, thorough=None, **kw):
     return dict(name=name, src='harnesses/C13.c', func='h_' + name, kernels=['C13_thread'], unwind=unwind,
                 quick=quick or [_c(3)], thorough=thorough or [_c(4)], bounds=BG, **kw)
-HARNESSES = [_h(n) for n in ('th_write_side', 'th_transpose', 'th_reshape', 'th_flatten', 'th_flip', 'th_invert', 'th_add', 'th_flip_transpose', 'th_invert_flip', 'th_invert_flip_transpose', 'th_sum', 'thd_transpose')]
+HARNESSES = [_h(n) for n in ('th_write_side', 'th_transpose', 'th_reshape', 'th_flatten', 'th_flip', 'th_invert', 'th_add', 'th_flip_transpose', 'th_invert_flip', 'th_invert_flip_transpose', 'th_flip_transpose_flip', 'th_sum', 'thd_transpose')]
 HARNESSES.append(_h('thd_add', quick=[_c(2)], thorough=[_c(3), _c(4)]))   # 185 s / 4.1 GB at MAXE=3
 HARNESSES.append(dict(name='launch_size', src='harnesses/C13.c', func='h_launch_size', kernels=['C13_thread'], unwind=4,
     bounds='TRANSCRIBED launch-size expression; output size 1..2^31-1 symbolic (pending finding: sizes > 2^24 excluded); work-group size LOCAL a per-query constant (32 = CUDA/HIP/SYCL warp size; OpenCL device values enumerated; symbolic 1..1024: no verdict in 300 s)',
@@ -35,7 +35,7 @@ ASSUMPTIONS = [
 ]
 CLAIM = dict(
  text='For every listed view (transpose, reshape, flatten, flip, unary ufunc, binary ufunc of two same-shape leaves, sum over an axis, and the depth-2/3 chains '
-      'flip(transpose), invert(flip), invert(flip(transpose))) the solver shows for the complete per-thread step - host-side get_function_composition + get_function_operands, '
+      'flip(transpose), invert(flip), invert(flip(transpose)), and the non-commuting flip(transpose(flip))) the solver shows for the complete per-thread step - host-side get_function_composition + get_function_operands, '
       'device-side operand reconstruction from raw (pointer, shape, dim), fn::apply, create_mutable_array and assign_result - with operand shape, data, view arguments, '
       'the prior content of the whole output buffer, thread id, block id (0..32) and block size (1..33) ALL symbolic: the thread with global id g = block*block_size+thread '
       'writes the host value into out[g] iff g < size(out) and changes no other cell. Since the written value depends neither on the output buffer nor on other threads, '
